@@ -490,7 +490,13 @@ class WFSA:
 
         if S is None:
             S = _gen_nt()
-        cfg = CFG(R=self.R, V=self.alphabet - {EPSILON}, S=S)
+        V = self.alphabet - {EPSILON}
+        while S in self.states or not V.isdisjoint(self.states):
+            # States become nonterminals: keep their names apart from the
+            # terminals and the start symbol (from_string, for instance, names
+            # states by prefixes of the string, which are also its symbols).
+            self = self.rename(lambda q: (q,))
+        cfg = CFG(R=self.R, V=V, S=S)
 
         if recursion == "right":
             # add production rule for initial states
